@@ -221,8 +221,10 @@ def packed_tensor_rules(chk):
         site = f"{mi.rel}:{p.end[2]}"
         f = path_facts(p)
         if p.end[0] == "raise":
-            ok = "ValueError" in U(p.end[1]) and f.get(f"{kwargs}.get('dtype', torch.uint8) != torch.uint8") is True or f.get(f"{kwargs}.get('dtype', torch.uint8) == torch.uint8") is False
-            chk.require("C04.R5", site, bool(ok), "PackedTensor dispatch refuses only a dtype change (ValueError)", "PackedTensor.__torch_dispatch__", "dispatch refusal", "an operation on a packed tensor raises although it is valid")
+            # "any tensor operation applied to a packed tensor acts on its unpacked values": a conversion to another dtype is such an operation
+            # (it leaves the packed form: the generic route below serves it), so the dispatch refuses nothing
+            chk.bad("C04.R5", site, "PackedTensor.__torch_dispatch__", "dispatch refusal", f"NOT: PackedTensor.__torch_dispatch__ raises `{U(p.end[1])[:50]}` on the path [{' & '.join(p.cond_texts())[:70]}] instead of applying the operation to the unpacked values",
+                    "p.float(), p.long(), p.to(torch.int32), p.type_as(x) or torch.arange(16)[p.long()] on a packed tensor: ValueError, while p + 0.0 returns the unpacked values")
             continue
         if p.end[0] != "return":
             continue
